@@ -146,7 +146,9 @@ class BackslashNode(IndentationNode):
 
 
 def _is_magic_name(name):
-    return name.value.startswith('__') and name.value.endswith('__')
+    # For invalid targets like `not a = 1` the "name" is a node.
+    return name.type == 'name' \
+        and name.value.startswith('__') and name.value.endswith('__')
 
 
 class PEP8Normalizer(ErrorFinder):
